@@ -16,8 +16,8 @@
    and prints expected step counts / epochs; the driver runs REAL scenarios for a stratified
    sample of them (public Scenario.propagateTo, called with a target computed by datetime
    arithmetic ("api") and the way the command line does, through
-   conversions.getTargetJulianDate ("cli")), start instants near day/month/year ends taken from
-   the Calendar table.
+   conversions.getTargetJulianDate ("cli")), start instants with every second of the minute placed
+   around the day / month / leap-day / year ends that Calendar.tla's second ticks cross.
 4. impl -> spec (durations): the recorded traces (stepForward calls, clock.datetime_epoch per
    step, truth/epoch rows of the database) are validated by TLC against TraceDurations.tla.
 """
